@@ -608,15 +608,23 @@ def run_history(tape, tier, opts):
         weights = [(nm, OPS[nm][3]) for nm in OP_NAMES]
         writes = _WriteTracker(rundir, ctx)
         last = None
+        done_steps = []
         step = 0
         while step < n_steps:
             step += 1
             pert = _perturb_rng(tape, ctx)
-            repeat = last is not None and tape.chance(1, 6, "hist.repeat")
+            repeat = bool(done_steps) and tape.chance(1, 4, "hist.repeat")
+            again = None
             if repeat:
-                opname, ents, params = last
+                # the same call once more: usually the previous one, sometimes an earlier one
+                k = len(done_steps) - 1 - tape.weighted(
+                    [(i, 3 if i == 0 else 1) for i in range(len(done_steps))], "hist.repeat_which")
+                opname, ents, params = done_steps[k]
             else:
                 opname = None
+                if done_steps and tape.chance(1, 4, "hist.same_op"):
+                    again = done_steps[-1][0]  # same operation, freshly drawn arguments
+                    opname = again
                 if opts.get("ops"):
                     forced = opts["ops"]
                     opname = forced[(step - 1) % len(forced)]
@@ -631,6 +639,7 @@ def run_history(tape, tier, opts):
                         ents, params = chosen
                         break
                     opname = None
+                    again = None
                 if opname is None:
                     opname = "by_arm"
                     ents, params = ch_by_arm(W, tape, info)
@@ -682,6 +691,7 @@ def run_history(tape, tier, opts):
             if kind and not isinstance(result, Exception):
                 W.add(kind, result, f"step{step}", f"{opname}@{step}")
             last = (opname, ents, params)
+            done_steps.append(last)
         for path, data in file_snaps.items():
             if open(path, "rb").read() != data:
                 raise Violation("A1", "C10/A1/file", f"input file {os.path.basename(path)} was modified")
